@@ -421,7 +421,7 @@ def strip_targs(name):
 
 
 class Function:
-    __slots__ = ('raw', 'S', 'key', 'qn', 'qnf', 'n', 'file', 'line', 'eline', 'ret', 'cls', 'clsq', 'cta', 'fta', 'ov',
+    __slots__ = ('raw', 'S', 'key', 'qn', 'qnf', 'n', 'file', 'line', 'eline', 'ret', 'cls', 'clsq', 'cta', 'fta', 'pe', 'ov',
                  'parent', 'unit', 'cfgid', '_nodes', '_cfg', '_locals', '_parents', 'flags', '_single_defs')
 
     def __init__(self, raw, S, unit, cfgid):
@@ -444,6 +444,7 @@ class Function:
         self.clsq = S[raw['clsq']] if 'clsq' in raw else ''
         self.cta = [S[i] for i in raw.get('cta', [])]
         self.fta = [S[i] for i in raw.get('fta', [])]
+        self.pe = [S[i] for i in raw.get('pe', [])]  # enum-valued template arguments, 'yaclib::FailPolicy=1'
         self.ov = [S[i] for i in raw.get('ov', [])]
         self.parent = S[raw['parent']] if 'parent' in raw else None
         self.flags = {k for k in ('noexcept', 'virtual', 'const', 'static', 'lambda', 'ctor', 'dtor', 'externc',
@@ -477,6 +478,8 @@ class Function:
                         n[k] = S[n[k]]
                 if 'cta' in n:
                     n['cta'] = [S[x] for x in n['cta']]
+                if 'cpe' in n:
+                    n['cpe'] = [S[x] for x in n['cpe']]
                 if 'lams' in n:
                     n['lams'] = [S[x] for x in n['lams']]
                 if 'cn' in n:
